@@ -179,6 +179,22 @@ def prim(ctx, center, scale, **kw):
     return prim2d(ctx, center, scale, **kw)
 
 
+def notch_cut(rng):
+    """rectangle minus a smaller rectangle that touches its right edge (a notch), declared contained=True: a legal subset
+    sharing a piece of the outer boundary.  Returns (spec, equivalent polygon spec): the set IS that polygon, the twin of
+    the cut cannot classify points on the two coincident leaf boundaries"""
+    x0, y0 = [round(float(v) * 4) / 4 for v in rng.uniform(-2, 2, 2)]
+    w, h = [max(1.0, round(float(rng.uniform(1.0, 2.5)) * 4) / 4) for _ in range(2)]
+    bw = max(0.25, round(float(0.4 * w) * 4) / 4)
+    q = h / 4.0
+    a = {"prim": "parallelogram", "var": "x", "origin": [x0, y0], "c1": [x0 + w, y0], "c2": [x0, y0 + h]}
+    b = {"prim": "parallelogram", "var": "x", "origin": [x0 + w - bw, y0 + q], "c1": [x0 + w, y0 + q], "c2": [x0 + w - bw, y0 + 3 * q]}
+    spec = {"op": "cut", "a": a, "b": b, "flag": True}
+    poly = {"prim": "polygon", "var": "x", "vertices": [[x0, y0], [x0 + w, y0], [x0 + w, y0 + q], [x0 + w - bw, y0 + q], [x0 + w - bw, y0 + 3 * q],
+                                                        [x0 + w, y0 + 3 * q], [x0 + w, y0 + h], [x0, y0 + h]]}
+    return spec, poly
+
+
 def mc_fraction(node, envs, box, rng, M=4000):
     """fraction of the box covered by the node, for each env row -> array (rows,)"""
     out = []
